@@ -218,7 +218,7 @@ CODES = {1: "the real cache contents differ from the model's (at a block boundar
 def run(ck, binp, seed, tier, viol):
     n = 1600 if tier == "quick" else 20000
     rc, out = sh([binp, "-mode", "elide", "-seed", str(seed), "-n", str(n)], timeout=900)
-    lines = [json.loads(l) for l in out.split("\n") if l.startswith("{")]
+    lines = jlines(out)
     mods = {l["module"]: l["wasm"] for l in lines if "module" in l}
     cases = [l for l in lines if "id" in l]
     if rc != 0 or not cases:
